@@ -1,6 +1,6 @@
 """Human-written claim texts per property (what the check proves, what it trusts)."""
 
-HOOK_COMMITS = ['2cf6faf']
+HOOK_COMMITS = ['d5e452f', '2cf6faf']
 
 NOTES = ('Exit codes of ./check: 0 all obligations discharged; 1 VIOLATION (a named obligation refuted); '
          '2 undecided (lost anchor / construct outside the accepted subset / solver limit) - never an alarm. '
